@@ -24,6 +24,8 @@ mod c05;
 mod c06;
 mod c07;
 mod c08;
+mod c09;
+mod c10;
 mod conn;
 mod exec;
 mod handler;
@@ -118,6 +120,8 @@ fn main() {
         "C06" => c06::run(&ctx, evidence.as_ref()),
         "C07" => c07::run(&ctx, evidence.as_ref()),
         "C08" => c08::run(&ctx, evidence.as_ref()),
+        "C09" => c09::run(&ctx, evidence.as_ref()),
+        "C10" => c10::run(&ctx, evidence.as_ref()),
         "C15" => c15::run(&ctx, evidence.as_ref()),
         "C16" => c16::run(&ctx, evidence.as_ref()),
         "C17" => c17::run(&ctx, evidence.as_ref()),
